@@ -48,11 +48,11 @@ Proof. intros F OF Fl c dt s p H. exact (polyval_rescaled Fl c dt s p H). Qed.
 Print Assumptions C08_collocation_power_basis_rescaling.
 
 (* non-vacuity: one RK4 step of x' = x from x = 1 with DT = 1/2 over Qc: the polynomial ends at
-   the RK4 end state 1 + 1/2 + 1/8 + 1/48 + 1/384 *)
+   the RK4 end state 211/128 = 1 + 1/2 + 1/8 + 1/48 + 1/384 *)
 Local Existing Instance QcOps.
 Example C08_nonvacuous :
   let f := {| s_ode := fun x (_ : Qc) => x; s_quad := fun _ _ => [] |} in
   let r := @intg_rk Qc QcOps f [Q2Qc 1] (Q2Qc 0) (Q2Qc (1#2)) (Q2Qc 1) in
-  map (fun q => this q) (dense_eval (r_poly r) (Q2Qc (1#2))) = [(633#384)%Q] /\
-  map (fun q => this q) (r_xf r) = [(633#384)%Q].
+  map (fun q => this q) (dense_eval (r_poly r) (Q2Qc (1#2))) = [(211#128)%Q] /\
+  map (fun q => this q) (r_xf r) = [(211#128)%Q].
 Proof. split; vm_compute; reflexivity. Qed.
